@@ -10,13 +10,14 @@ LEVEL_TEXT = ("Theorems (Lean 4, any linearly ordered field, every callback scri
               "call receives the solver's current for the previous callback's (volt, rs) in phase k mod n of the declared "
               "order together with that phase's duration, resp. (cap0/I)*3.6; the log is the probe row followed by exactly "
               "the returned states up to and excluding the first with cap <= 0 or volt <= cutoff; positive durations give a "
-              "strictly increasing time column, each time being the previous one plus the handed-out duration; a non-empty name that names no Source raises ValueError before any callback. "
-              "Partial: the empty name is excluded by hypothesis (not_a_source_full_fails: batt_life('') runs on the first "
-              "rail-less component). The model is tied to the code on every run by replaying each batt_life() call "
+              "strictly increasing time column, each time being the previous one plus the handed-out duration; a name that names no "
+              "Source raises ValueError before any callback; a solve that did not converge raises RuntimeError instead of being "
+              "handed on. The model is tied to the code on every run by replaying each batt_life() call "
               "(returned DataFrame, callback argument stream, exception class, Source row afterwards) through the compiled model.")
 LEVEL_NOTE = ("Proof covers the loop for an arbitrary solver function; that the current handed to the callback is the steady "
-              "state of the real solver is checked by the oracle against an independent public solve() of a fresh copy "
-              "(open findings: batt_life ignores non-convergence; the empty name is accepted).")
+              "state of the real solver is checked by the oracle against an independent public solve() of a fresh copy. "
+              "Regression streams keep the witnesses of the repaired findings F29 (empty name accepted) and F30 "
+              "(non-converged current handed on).")
 MODULE = "SysLoss.Props.C18"
 THEOREMS = [
     "SysLoss.C18.first_row",
@@ -27,16 +28,14 @@ THEOREMS = [
     "SysLoss.C18.time_strict",
     "SysLoss.C18.time_strict_phases",
     "SysLoss.C18.time_strict_nophases",
-    "SysLoss.C18.not_a_source_partial",
-    "SysLoss.C18.not_a_source_full_fails",
+    "SysLoss.C18.not_a_source",
+    "SysLoss.C18.unconverged_raises",
 ]
 # C17 clause 3 is proved about the same model in lean/SysLoss/Props/C17Batt.lean; to be listed by the C17 check:
 C17_MODULE = "SysLoss.Props.C17Batt"
 C17_THEOREMS = [
-    "SysLoss.C17.batt_restores_partial",
-    "SysLoss.C17.batt_restores_before_loop",
-    "SysLoss.C17.batt_restores_full_fails",
-    "SysLoss.C17.batt_restores_full_fails_solver",
+    "SysLoss.C17.batt_restores",
+    "SysLoss.C17.batt_no_call_before_loop",
 ]
 RULE = ("random power trees (gen.gen_system: 1-3 sources, <=14 nodes, all kinds, rails) x battery = any source (by name or by "
         "rail name) x scripted battery model (linear / exponential / sagging voltage with rising impedance; 3-200 steps; ends by "
@@ -251,7 +250,10 @@ def model_request(case, obs, carrier):
     if obs["origin"] == "library" and bat.probe_rec is not None and "ret" in bat.probe_rec and len(st) == len(bat.dep) + 1:
         # the call was left by an exception that no callback raised, after the last callback returned: the solver's
         k = len(bat.dep)
-        table.append([wire.num(st[k][1]), wire.num(st[k][2]), ph[k % len(ph)], {"err": sysdesc.exc_class(obs["exc"])}])
+        e = obs["exc"]
+        res = ({"nonconv": True} if isinstance(e, RuntimeError) and "Steady-state not achieved" in str(e)
+               else {"err": sysdesc.exc_class(e)})
+        table.append([wire.num(st[k][1]), wire.num(st[k][2]), ph[k % len(ph)], res])
     return {"cmd": "batt", "carrier": carrier,
             "nodes": [[c["name"], c["kind"]] for c in desc["comps"]],
             "rails": [[c["name"], "" if c["kind"] in sysdesc.LOADS else c.get("rail", "")] for c in desc["comps"]],
@@ -414,11 +416,11 @@ def oracle(ctx, case, obs, n_current=6):
             fail("call_current", {}, {"call": k, "I": bat.dep[k]["i"], "independent_solve": ref, "volt": st[k][1],
                                       "rs": st[k][2], "phase": ph[k % len(ph)]})
             break
-    # a solver exception must be one the independent solve reproduces
+    # a solver exception (incl. RuntimeError: no steady state) must be one the independent solve reproduces
     if obs["origin"] == "library" and len(st) == len(bat.dep) + 1:
         k = len(bat.dep)
         ref, e = indep_current(desc, src, st[k][1], st[k][2], ph[k % len(ph)])
-        if e is None or type(e).__name__ != obs["outcome"] or isinstance(e, RuntimeError):
+        if e is None or type(e).__name__ != obs["outcome"]:
             fail("solver_exception", {}, {"call": k, "batt_life_raised": repr(obs["exc"]), "independent_solve": ref if e is None else repr(e)})
     if obs["outcome"] != "ok":
         return
@@ -589,7 +591,7 @@ def invalid_names(ctx, case):
 
 
 def finding_streams(ctx):
-    """dedicated streams for the open findings: batt_life(""), and a system without a steady state"""
+    """regression streams of the repaired findings: batt_life("") (F29), and a system without a steady state (F30)"""
     one(ctx, copy.deepcopy(EMPTY_NAME_WITNESS))
     ctx.stats["empty-name-runs"] += 1
     one(ctx, copy.deepcopy(NONCONVERGED_WITNESS), n_current=1)
